@@ -225,8 +225,8 @@ typedef struct {
 	int in_hook;
 	uint64_t accesses;
 	int is_victim;
-	const char *stall_func; int stall_op, stall_phase; uint64_t stall_max_ns;
-	const char *stall2_func; int stall2_op, stall2_phase; uint64_t stall2_max_ns;
+	const char *stall_func; int stall_op, stall_phase, stall_skip; uint64_t stall_max_ns;
+	const char *stall2_func; int stall2_op, stall2_phase, stall2_skip; uint64_t stall2_max_ns;
 } vf_tls_t;
 static __thread vf_tls_t tl;
 
@@ -292,21 +292,66 @@ static void vf_do_delay(vf_rng_t *r, int strong)
 	}
 }
 
+/* Debugging aid (VF_TRACE=1): per-thread rings of the library atomics seen by H1;
+ * on a fatal signal the entries that touch the faulting thread's stack are printed. */
+#define VF_TR_N 8192
+typedef struct { uint64_t seq; const volatile void *addr; const char *func; uint64_t val; int line; short op, phase; int tid; } vf_tr_ent_t;
+typedef struct vf_tr_ring { vf_tr_ent_t e[VF_TR_N]; unsigned n; struct vf_tr_ring *next; int tid; } vf_tr_ring_t;
+static int g_trace;
+static vf_tr_ring_t *_Atomic g_tr_rings;
+static __thread vf_tr_ring_t *tl_ring;
+static _Atomic uint64_t g_tr_seq;
+
+static void vf_trace_rec(int phase, int op, const volatile void *addr, const char *func, int line)
+{
+	vf_tr_ring_t *r = tl_ring;
+	if (!r) {
+		r = calloc(1, sizeof(*r));
+		r->tid = vf_gettid();
+		r->next = atomic_load(&g_tr_rings);
+		while (!atomic_compare_exchange_weak(&g_tr_rings, &r->next, r)) { }
+		tl_ring = r;
+	}
+	vf_tr_ent_t *e = &r->e[r->n++ % VF_TR_N];
+	e->seq = atomic_fetch_add(&g_tr_seq, 1); e->addr = addr; e->func = func; e->line = line; e->op = (short)op; e->phase = (short)phase; e->tid = r->tid;
+	e->val = ((uintptr_t)addr & 3) ? 0 : *(const volatile uint32_t *)addr;
+}
+
+static void vf_trace_dump(int sig, siginfo_t *si, void *uc)
+{
+	(void)si; (void)uc;
+	char lo_marker; uintptr_t sp = (uintptr_t)&lo_marker;
+	uintptr_t lo = sp - (64 << 10), hi = sp + (64 << 10);
+	fprintf(stderr, "VF_TRACE: signal %d on tid %d, sp=%p; atomics on [%p,%p):\n", sig, vf_gettid(), (void *)sp, (void *)lo, (void *)hi);
+	for (vf_tr_ring_t *r = atomic_load(&g_tr_rings); r; r = r->next) {
+		unsigned n = r->n < VF_TR_N ? r->n : VF_TR_N;
+		for (unsigned i = 0; i < n; i++) {
+			vf_tr_ent_t *e = &r->e[i];
+			if ((uintptr_t)e->addr >= lo && (uintptr_t)e->addr < hi)
+				fprintf(stderr, "VF_TRACE %llu tid=%d %s:%d op=%d phase=%d addr=%p val32=%#llx\n", (unsigned long long)e->seq, e->tid, e->func, e->line, e->op, e->phase, (void *)e->addr, (unsigned long long)e->val);
+		}
+	}
+	fflush(stderr);
+	signal(sig, SIG_DFL);
+	raise(sig);
+}
+
 static void vf_atomic_hook(int phase, int op, const volatile void *addr,
 		const char *func, int line)
 {
 	if (tl.in_hook) return;
 	tl.in_hook = 1;
+	if (g_trace) vf_trace_rec(phase, op, addr, func, line);
 #if VF_TSAN
 	/* TSO promotion (DESIGN §6.2): every library atomic is at least
 	 * release (store side) / acquire (load side) on the 8-byte cell. */
 	void *cell = (void *)((uintptr_t)addr & ~(uintptr_t)7);
-	if (phase == 0 && op != 0) __tsan_release(cell);
-	if (phase == 1 && op != 1) __tsan_acquire(cell);
+	if (phase == 0 && op != 0 && op < 5) __tsan_release(cell);
+	if (phase == 1 && op != 1 && op < 5) __tsan_acquire(cell);   /* op 5: a named point, no access */
 #else
 	(void)addr;
 #endif
-	if (tl.stall_func && phase == tl.stall_phase && op == tl.stall_op && !strcmp(func, tl.stall_func)) {
+	if (tl.stall_func && phase == tl.stall_phase && op == tl.stall_op && !strcmp(func, tl.stall_func) && tl.stall_skip-- <= 0) {
 		uint64_t t0 = vf_now_ns(CLOCK_MONOTONIC), max_ns = tl.stall_max_ns;
 		tl.stall_func = NULL;
 		atomic_store(&g_stall_reached, 1);
@@ -315,7 +360,7 @@ static void vf_atomic_hook(int phase, int op, const volatile void *addr,
 			nanosleep(&ts, NULL);
 		}
 	}
-	if (tl.stall2_func && phase == tl.stall2_phase && op == tl.stall2_op && !strcmp(func, tl.stall2_func)) {
+	if (tl.stall2_func && phase == tl.stall2_phase && op == tl.stall2_op && !strcmp(func, tl.stall2_func) && tl.stall2_skip-- <= 0) {
 		uint64_t t0 = vf_now_ns(CLOCK_MONOTONIC), max_ns = tl.stall2_max_ns;
 		tl.stall2_func = NULL;
 		atomic_store(&g_stall2_reached, 1);
@@ -374,13 +419,15 @@ static void vf_atomic_hook(int phase, int op, const volatile void *addr,
 
 void vf_stall_arm(const char *func, int op, int phase, uint64_t max_ns)
 {
-	tl.stall_op = op; tl.stall_phase = phase; tl.stall_max_ns = max_ns;
+	tl.stall_op = op; tl.stall_phase = phase; tl.stall_max_ns = max_ns; tl.stall_skip = 0;
 	tl.stall_func = func;
 }
 void vf_stall_disarm(void) { tl.stall_func = NULL; tl.stall2_func = NULL; }
+void vf_stall_skip(int n) { tl.stall_skip = n; }
+void vf_stall2_skip(int n) { tl.stall2_skip = n; }
 void vf_stall2_arm(const char *func, int op, int phase, uint64_t max_ns)
 {
-	tl.stall2_op = op; tl.stall2_phase = phase; tl.stall2_max_ns = max_ns;
+	tl.stall2_op = op; tl.stall2_phase = phase; tl.stall2_max_ns = max_ns; tl.stall2_skip = 0;
 	tl.stall2_func = func;
 }
 
@@ -808,6 +855,12 @@ void vf_init(int argc, char **argv, const char *harness)
 	sigaction(SIGFPE, &sa, NULL);
 	sigaction(SIGTRAP, &sa, NULL);
 #endif
+	if (getenv("VF_TRACE")) {
+		struct sigaction sa; memset(&sa, 0, sizeof(sa));
+		sa.sa_sigaction = vf_trace_dump; sa.sa_flags = SA_SIGINFO;
+		sigaction(SIGILL, &sa, NULL); sigaction(SIGSEGV, &sa, NULL); sigaction(SIGABRT, &sa, NULL);
+		g_trace = 1;
+	}
 	/* observation (and TSO annotation) is always on; delays only per profile */
 	g_prof.kind = VF_P_OFF;
 	_dispatch_verif_atomic_hook = vf_atomic_hook;
